@@ -51,6 +51,35 @@ def walk_stmts(ss):
     yield from F._flat(ss)
 
 
+def prune_unreachable(prog, root='kernel'):
+    """Drop the units no call chain from `root` reaches: the Scheduler only rewrites the call tree of its seed, so a
+    dead module routine that still calls a rewritten one would break the build without any fault of Loki."""
+    units = {u['name']: u for u in prog['units']}
+    seen, todo = set(), [root]
+    while todo:
+        n = todo.pop()
+        if n in seen or n not in units:
+            continue
+        seen.add(n)
+        todo += [s['name'] for s in walk_stmts(units[n]['body']) if s['s'] == 'call']
+        todo += [nm for nm in _called_functions(units[n]['body']) if nm in units]
+    prog['units'] = [u for u in prog['units'] if u['name'] in seen]
+    return prog
+
+
+def _called_functions(obj, acc=None):
+    acc = set() if acc is None else acc
+    if isinstance(obj, dict):
+        if obj.get('k') == 'call':
+            acc.add(obj['f'])
+        for v in obj.values():
+            _called_functions(v, acc)
+    elif isinstance(obj, list):
+        for v in obj:
+            _called_functions(v, acc)
+    return acc
+
+
 # ============================================================================================ Scheduler plumbing
 CONFIG = {
     'default': {'mode': 'idem', 'role': 'kernel', 'expand': True, 'strict': True},
@@ -529,7 +558,10 @@ def param_check(ctx, label, cases, transform, entry='kernel', max_disagree=0.03)
             tcases.append(dict(base, observed=obs, mode='preflight'))
             tmeta.append((r['idx'], k, 'preflight'))
             if r['new'][1] is not None and r['new'][1][k] is not None:
-                tcases.append(dict(base, observed=r['new'][1][k], mode='new'))
+                newobs = r['new'][1][k]
+                if os.environ.get('VERIF_SIG_CORRUPT') and newobs:      # development aid: the binding must notice a corrupted record
+                    newobs = [list(newobs[0][:1]) + [newobs[0][1] + 1] + list(newobs[0][2:])] + newobs[1:] if newobs[0] != ABORT else [['int', 0, 1]]
+                tcases.append(dict(base, observed=newobs, mode='new'))
                 tmeta.append((r['idx'], k, 'new'))
     verdicts = ctx.validate('Trace_Parametrise', 'Trace_Parametrise', tcases, timeout=2400, per_shard_min=8) if tcases else {}
     ctx.cover.setdefault(f'{label}_phase_wall_s', []).append(
@@ -617,7 +649,7 @@ def report_grouped(ctx, label, cases, results, fails, check, tagger, rounds=4, m
         if shrunk < max_groups and not any(re.fullmatch(m, key) for m in known):
             shrunk += 1
             for _ in range(rounds):
-                cands = [c for c in F.removal_candidates(small, limit=40) if tagger(c) == tags][:12]
+                cands = [c for c in map(prune_unreachable, F.removal_candidates(small, limit=40)) if tagger(c) == tags][:12]
                 if not cands:
                     break
                 _, fl, _ = check([(c, inputs) for c in cands])
@@ -679,6 +711,7 @@ class GenSig(F.Gen):
         tail = [assign(V('t2'), mod_(add(call('sum', V('wc')), call('sum', V('wv'))), 101)), assign(V('k'), mod_(add(V('k'), V('t2'), V('t1')), 97))]
         kern['body'] = body[:5] + init + body[5:] + tail
         prog['meta'] = {'family': self.family, 'opts': self.opts}
+        prune_unreachable(prog)
         for u in prog['units'][1:]:       # scalar dummies are declared before the arrays whose bounds mention them
             u['decls'].sort(key=lambda d: 0 if d['name'] in u['args'] and not d['dims'] else 1)
         if getattr(self, 'types', None):
@@ -988,9 +1021,11 @@ def render_sig(prog):
             dims = '(' + ', '.join(f'{lo}:{hi}' for lo, hi in fdims) + ')' if fdims else ''
             ty = f'type({fty[4:]})' if fty.startswith('rec:') else F.TYPES[fty]
             lines.append(f'    {ty} :: {fname}{dims}')
-        if t.get('bindings'):
+        present = {u['name'] for u in prog['units']}
+        binds = [(b, tg) for b, tg in t.get('bindings', []) if tg in present]
+        if binds:
             lines.append('  contains')
-            for bname, target in t['bindings']:
+            for bname, target in binds:
                 lines.append(f'    procedure :: {bname} => {target}')
         lines.append(f'  end type {tname}')
     lines.append('contains')
